@@ -375,9 +375,19 @@ def main(argv=None):
     import multiprocessing as mp
     ctx = mp.get_context("fork")
     results = []
+    # watchdog only: a run that exceeds it is a harness error (exit 2), never a verdict about the property
+    limit = float(os.environ.get("VERIF_WATCHDOG_S") or (1800 if tier == "quick" else 10800))
     with ctx.Pool(min(NPROC, len(tasks))) as pool:
-        for r in pool.imap_unordered(_task, tasks, chunksize=1):
-            results.append(r)
+        it = pool.imap_unordered(_task, tasks, chunksize=1)
+        for _ in range(len(tasks)):
+            left = limit - (time.time() - t0)
+            try:
+                results.append(it.next(timeout=max(1.0, left)))
+            except mp.TimeoutError:
+                pool.terminate()
+                print(f"HARNESS-ERROR watchdog: {pid} {tier} still running after {limit:.0f}s "
+                      f"({len(results)}/{len(tasks)} tasks done); no verdict")
+                return 2
 
     errors = [r["error"] for r in results if "error" in r]
     if errors:
